@@ -24,7 +24,7 @@ func init() {
 		}
 		return vs
 	},
-		Level:       "held on every recorded history: every program of 2 threads x <=2 calls and 3 threads x 1 call over each of the 8 types' single-element operations (the cache both with live entries only and starting from expired-but-unpurged entries) with a 2-value (thorough 3-value) alphabet and 3 small initial states, each executed 16 (thorough 256, also with GOMAXPROCS=2) times under seeded delays at lock boundaries (readers are refused while a writer is pending, as sync.RWMutex does, so a recursive read lock ends in the logical deadlock verdict), plus seeded larger programs, plus deep tables (a BsTree whose root has two children; Queue and Stack - thorough: also LQueue, LStack, Heap - holding 300 elements with membership probes at positions 0/63/64/127/128/129/255/256/299); every history (with a sequential observation suffix) checked by porcupine against the implementation replayed sequentially",
+		Level:       "held on every recorded history: every program of 2 threads x <=2 calls and 3 threads x 1 call over each of the 8 types' single-element operations (the cache both with live entries only and starting from expired-but-unpurged entries) with a 2-value (thorough 3-value) alphabet and 3 small initial states, each executed 16 (thorough 48, and again with GOMAXPROCS=2) times under seeded delays at lock boundaries (readers are refused while a writer is pending, as sync.RWMutex does, so a recursive read lock ends in the logical deadlock verdict), plus seeded larger programs, plus deep tables (a BsTree whose root has two children; Queue and Stack - thorough: also LQueue, LStack, Heap - holding 300 elements with membership probes at positions 0/63/64/127/128/129/255/256/299); every history (with a sequential observation suffix) checked by porcupine against the implementation replayed sequentially",
 		Technique:   "client-boundary history recorder + porcupine linearizability checker with the sequentially replayed implementation as specification, executions under the tracked sync shim (seeded delays between critical sections)",
 		Assumptions: []string{"interleavings are those the runtime + seeded delays produce (measured: distinct lock-acquisition orders are reported); not exhaustive, a split section that no run opens is missed", "relies on C01 for races inside one lock acquisition (no delay is injected there)", "the sequential behaviour itself is judged by C03-C09, not here", "porcupine v1.3.0 is trusted"}})
 	reg(&propCfg{ID: "C01", Pkg: "./props/c01", Variants: c01Variants,
@@ -97,7 +97,7 @@ func init() {
 		}
 		return vs
 	},
-		Level:       "held on every executed case: complete sweep of all sequences up to length 4 (thorough 5) over 23 operations (incl. clock advances to 1 ns before/after the earliest pending deadline) on 2 keys for all six default-expiry x cleanup configurations, plus seeded random sequences up to length 25 on 3 keys; every observable (Get, IsExpired, Count, List) compared after every step with a map-with-deadlines model at the same virtual instant, cleanup ticks included; concurrent half: every program of 2 threads x <=2 calls and 3 threads x 1 call over Set/Get/Update/Delete/Count/DeleteExpired/IsExpired (quick: those containing DeleteExpired or IsExpired) on a cache that starts with expired-but-unpurged entries, 8 (thorough 256) executions each under seeded delays at lock boundaries, every history checked with porcupine against the sequentially replayed implementation (a purge must never remove an entry a racing Set/Update has just made live)",
+		Level:       "held on every executed case: complete sweep of all sequences up to length 4 (thorough 5) over 23 operations (incl. clock advances to 1 ns before/after the earliest pending deadline) on 2 keys for all six default-expiry x cleanup configurations, plus seeded random sequences up to length 25 on 3 keys; every observable (Get, IsExpired, Count, List) compared after every step with a map-with-deadlines model at the same virtual instant, cleanup ticks included; concurrent half: every program of 2 threads x <=2 calls and 3 threads x 1 call over Set/Get/Update/Delete/Count/DeleteExpired/IsExpired (quick: those containing DeleteExpired or IsExpired) on a cache that starts with expired-but-unpurged entries, 8 (thorough 48) executions each under seeded delays at lock boundaries, every history checked with porcupine against the sequentially replayed implementation (a purge must never remove an entry a racing Set/Update has just made live)",
 		Technique:   "reference-model trace monitor in virtual time (testing/synctest): observations at exact instants around deadlines and cleanup ticks; concurrent purge/expiry histories checked with porcupine under the tracked sync shim",
 		Assumptions: []string{"the fake clock of testing/synctest is the time source the library reads (time.Now/Ticker)", "hook: cache.VerifStopCleanup (tag verif) ends the cleanup goroutine at the end of each case", "not asserted: whether Count/List include expired-but-unpurged entries, Delete's result on such an entry, behaviour exactly at a deadline", "concurrent half: expired entries are created in the sequential initial state with a 1 ns lifetime and the call returns only after the wall clock passed it; entries stored by the concurrent calls never expire, so no recorded result depends on when a call ran; interleavings are those the runtime + seeded delays produce"}})
 	reg(&propCfg{ID: "C17", Pkg: "./props/c17", Variants: func(tier string) []variant {
